@@ -6,6 +6,7 @@ import (
 	"fmt"
 	"path"
 	"regexp"
+	"slices"
 	"strings"
 
 	"github.com/hknutzen/Netspoc-Approve/go/pkg/deviceconf"
@@ -120,6 +121,9 @@ func (s *State) ParseConfig(data []byte, fName string) (
 	if err != nil {
 		return nil, err
 	}
+	if err := checkNull(config); err != nil {
+		return nil, err
+	}
 	if path.Ext(fName) == ".raw" {
 		if err := checkRaw(config); err != nil {
 			return nil, err
@@ -127,6 +131,28 @@ func (s *State) ParseConfig(data []byte, fName string) (
 	}
 	err = checkConfigValidity(config)
 	return config, err
+}
+
+// JSON value 'null' is read as nil pointer,
+// but is not valid as element of any list.
+func checkNull(c *NsxConfig) error {
+	err := fmt.Errorf("Unexpected 'null' in list of JSON input")
+	for _, p := range c.Policies {
+		if p == nil || slices.Contains(p.Rules, nil) {
+			return err
+		}
+	}
+	for _, g := range c.Groups {
+		if g == nil || slices.Contains(g.Expression, nil) {
+			return err
+		}
+	}
+	for _, s := range c.Services {
+		if s == nil || slices.Contains(s.ServiceEntries, nil) {
+			return err
+		}
+	}
+	return nil
 }
 
 func checkRaw(c *NsxConfig) error {
